@@ -304,6 +304,23 @@ func runC13(c *ev.ChildEnv, res *ev.Result) {
 				break
 			}
 		}
+		if !bad && firstSpec != nil {
+			// the adjustment is an input: applying it does not change it, and the same object applied again (to
+			// another copy of the spec) gives the same result
+			same := proto.Clone(cs.Adj).(*api.ContainerAdjustment)
+			o1, e1 := applyAdjust(cs.Spec, same)
+			o2, e2 := applyAdjust(cs.Spec, same)
+			b1, _ := json.Marshal(o1)
+			b2, _ := json.Marshal(o2)
+			if e1 != nil || e2 != nil || string(b1) != string(b2) || !proto.Equal(same, cs.Adj) {
+				da := map[string]string{}
+				if o1 != nil && o2 != nil {
+					da = diffView(viewOfSpec(o1), viewOfSpec(o2))
+				}
+				res.Violate("C13/nondeterministic/reapplied", fmt.Sprintf("the same adjustment object applied twice: errors %v / %v, adjustment left unchanged: %v, differences between the two results: %v", e1, e2, proto.Equal(same, cs.Adj), da), cs)
+				bad = true
+			}
+		}
 		if bad || firstSpec == nil {
 			continue
 		}
@@ -319,6 +336,11 @@ func runC13(c *ev.ChildEnv, res *ev.Result) {
 				}
 			}
 			res.Violate(fmt.Sprintf("C13/differs/%s/%s", fam, site), "generator result differs from the reference interpretation of the adjustment: "+d, cs)
+		}
+		// the CDI injector is asked once, with all the names of the adjustment
+		if calls, want := strings.Count(firstSpec.Annotations["verif.cdi"], "|")-strings.Count(cs.Spec.Annotations["verif.cdi"], "|"), min(len(cs.Adj.CDIDevices), 1); calls != want {
+			bad = true
+			res.Violate("C13/cdi-injection-calls", fmt.Sprintf("an adjustment with %d CDI devices made the generator call the CDI injector %d times (want %d: all names in one call)", len(cs.Adj.CDIDevices), calls, want), cs)
 		}
 		// every device the adjustment adds is made accessible: one allow rule with its type and numbers
 		if d := deviceRuleDiff(cs.Spec, firstSpec, cs.Adj); d != "" {
